@@ -14,6 +14,33 @@ def tolerated_kinds(chk):
     return [k for k in kinds if k]
 
 
+def reuse_diff(first, second):
+    """files in which the reusing run differs from the saving run.  Several experiments: the i-th saved prefix must have a
+    folder of its own in the second run with identical files (folder names are IsoQuant's choice, matched by content)"""
+    d1, d2 = first["digests"], second["digests"]
+    if len(first.get("prefixes") or []) <= 1:
+        return sorted(k for k in set(d1) | set(d2) if d1.get(k) != d2.get(k))
+
+    def by_folder(d):
+        out = {}
+        for k, v in d.items():
+            out.setdefault(k.split("/")[0], {})[k.split("/", 1)[1]] = v
+        return out
+    f1, f2 = by_folder(d1), by_folder(d2)
+    bad, used = [], set()
+    for p in first["prefixes"]:
+        want = f1.get(p, {})
+        hit = [x for x in sorted(f2) if x not in used and f2[x] == want]
+        if hit:
+            used.add(hit[0])
+            continue
+        near = min(sorted(f2), key=lambda x: len([c for c in set(want) | set(f2[x]) if want.get(c) != f2[x].get(c)])) if f2 else None
+        diff = sorted(c for c in set(want) | set(f2.get(near, {})) if want.get(c) != f2.get(near, {}).get(c))
+        bad.append("saved experiment %s: no folder of the reusing run (%s) reproduces it; closest %s differs in %s" % (
+            p, ",".join(sorted(f2)), near, ",".join(diff[:5])))
+    return bad
+
+
 def run(chk, orch):
     quick = chk.tier == "quick"
     chk.rule = ("two layers. (M) machine: a Hypothesis RuleBasedStateMachine builds a stream with the rules add_gene_info / "
@@ -42,8 +69,11 @@ def run(chk, orch):
         for k in range(np_):
             spec = workload.random_spec(chk.rng)
             opts = common.random_opts(chk.rng, spec)
-            spec["n_exp"] = 1
+            # every fourth reuse scenario saves two experiments and reuses both (--read_assignments <prefix1> <prefix2>)
+            spec["n_exp"] = 2 if k % 4 == 3 else 1
+            spec["exp_mode"] = "split"
             spec["n_bams"] = 1
+            spec["exp_bams"] = None
             spec["split_gene"] = 1 if k % 2 == 0 else spec.get("split_gene", 0)     # consecutive gene-info records with one span
             spec["long_locus"] = 1 if k % 4 == 1 else spec.get("long_locus", 0)
             if opts.get("read_group") == "file_name":
@@ -105,8 +135,7 @@ def run(chk, orch):
                 if s["exit"] != 0:
                     bad = ["<exit %s %s>" % (s["exit"], s.get("failure_site"))]
                 else:
-                    d1, d2 = res["first"]["digests"], s["digests"]
-                    bad = sorted(k for k in set(d1) | set(d2) if d1.get(k) != d2.get(k))
+                    bad = reuse_diff(res["first"], s)
                 if bad:
                     chk.violation("reuse", {"files": ",".join(bad)[:200]},
                                   "run restarted from saved assignments differs from the run that saved them: %s\n%s" % (bad[:8], (s.get("log_tail") or "")[-400:]),
@@ -127,8 +156,7 @@ def replay(doc, orch):
         s = res.get("second") or {}
         if s.get("exit") != 0:
             return True, "second run exit %s\n%s" % (s.get("exit"), s.get("log_tail"))
-        d1, d2 = res["first"]["digests"], s["digests"]
-        bad = sorted(k for k in set(d1) | set(d2) if d1.get(k) != d2.get(k))
+        bad = reuse_diff(res["first"], s)
         return bool(bad), "differs: %s" % bad
     jid = orch.submit(doc.get("hashseed", 0), "machines.c15:replay_case", {"payload": doc["payload"], "what": doc.get("what_payload")})
     r = orch.run_all()[jid][1]
